@@ -103,4 +103,63 @@ CHECKS = {
                       "WaitForGracefulClose, graceful stop) are exercised by the C16/C18 lifecycle harness, which reports hangs under those properties.",
         "assumptions": ["after all operation goroutines returned nobody calls CeaseVigil again"],
     },
+    "C04": {
+        "pkg": "files", "run": "^TestC04", "level": "exploration",
+        "shards": {"quick": 2, "thorough": 16}, "timeout": {"quick": 900, "thorough": 3600},
+        "technique": "mutation-based property-based testing (rapid) plus native go fuzzing of the .hyd loaders with a membership / resource oracle",
+        "level_text": "Valid files written by the real writer (and hand-built legacy files) are truncated, bit-flipped, header-forged, spliced and re-checksummed; seven loading "
+                      "entry points (NewFileReader, LoadIndex, ReadAllBlocks, ScanBlockHeaders, CalculateFragmentation, ReadSwampName, chronicler Load) must not panic, hang or "
+                      "allocate more than 64 x size + 4 MiB, and without an error must return only records of the source files' write sets. Thorough adds a bounded native fuzz campaign.",
+        "level_note": "Allocation is measured as the process TotalAlloc delta. Membership is not applied when a CRC was recomputed (CRC32 is not authentication). "
+                      "Names and headers are unchecksummed by design and not asserted.",
+        "assumptions": ["64x covers Snappy's maximum expansion times the copies the loader makes", "a CRC32 collision among random mutations is negligible"],
+    },
+    "C29": {
+        "pkg": "files", "run": "^TestC29", "level": "exploration",
+        "shards": {"quick": 2, "thorough": 16},
+        "technique": "stateful property-based testing of file life cycles plus a differential check of the explorer scan against the set of written names",
+        "level_text": "Swamp files in both formats are created, appended and compacted through every compaction entry point inside hashed data roots with distractor files; "
+                      "ReadSwampName must equal the written name at every stage, and the explorer must list exactly the written swamps (island, path, totals, detail).",
+        "level_note": "A name is valid when it has three non-empty parts without '/'; one swamp per name per root; xxhash64 collisions are ignored.",
+        "assumptions": ["names up to 65535 bytes are storable; longer names must be rejected"],
+    },
+    "C23": {
+        "pkg": "files", "run": "^TestC23", "level": "exploration",
+        "shards": {"quick": 2, "thorough": 16},
+        "technique": "differential property-based testing: real V1 chronicler histories, the real migrator, then V1 Load against V2 Load through all treasure getters; generated damaged inputs",
+        "level_text": "Legacy folders are produced by the real V1 chronicler from generated histories (many chunk files, in-place modifications, real and shadow deletes, all content "
+                      "kinds), migrated with generated options (DryRun, Verify, DeleteOld, Parallel) and compared record by record with what V1 loads; failed or dry-run migrations "
+                      "must leave the legacy folder byte-identical and no partial .hyd; damaged chunks, a directory at the target path and unencodable keys are injected.",
+        "level_note": "Keys duplicated across chunk files (a genuine V1 artefact) accept any version V1 Load could return. No n-th-write I/O fault injection inside the migrator.",
+        "assumptions": ["the harness drives V1 the way the swamp does (file-pointer callbacks)"],
+    },
+    "C14": {
+        "pkg": "locks", "run": "^TestC14", "level": "exploration",
+        "shards": {"quick": 4, "thorough": 16},
+        "technique": "model-based property-based testing (deterministic step controller with parked-goroutine observation), concurrent timed scripts with a one-sided timing oracle, mutual-exclusion churn",
+        "level_text": "Random step lists and concurrent scripts over 2-8 actors and 1-3 keys run against the real lock.New(): every observed grant, error and unlock result must be "
+                      "explainable by an arrival-order model with sound TTL lower bounds (one monotonic clock, one-sided inequalities); stale/foreign/unknown unlocks must fail and "
+                      "change nothing; every actor must come back (bounded absence of progress, 20 s).",
+        "level_note": "Schedules are sampled, not enumerated; the head-cancel race is forced by back-to-back cancel and unlock. Gateway Lock/Unlock (TTL floor 1 s) is not exercised.",
+        "assumptions": ["a runtime.Stack state of 'select' inside lock.Lock means the caller is enqueued", "Go timers never fire early"],
+    },
+    "C15": {
+        "pkg": "locks", "run": "^TestC15", "level": "exploration",
+        "shards": {"quick": 4, "thorough": 16},
+        "technique": "model-based property-based testing on a deterministic, shrinkable step sequence with Cond.Wait parking observation",
+        "level_text": "Step lists of Start(waiting), Start(non-waiting), Release and duplicate/stale/foreign releases over 2-6 actors are checked after every step against a FIFO "
+                      "unique-ticket model: who returned, who is parked, and CanExecute(holder).",
+        "level_note": "Interleavings are made deterministic by waiting until each blocking acquire is observed parked; this samples sequentially-consistent step orders, not every "
+                      "memory-level interleaving inside guard.go.",
+        "assumptions": ["actors only know ids they were given"],
+    },
+    "C28": {
+        "pkg": "locks", "run": "^TestC28", "level": "exploration",
+        "shards": {"quick": 1, "thorough": 4},
+        "technique": "metamorphic heap-retention bound (slope of retained bytes over the number of distinct keys) on generated lock/unlock/expiry sequences",
+        "level_text": "n distinct keys (n = 10^2..10^5, drawn key lengths, unlock vs TTL expiry mix, queued waiters, a few keys held throughout) are locked and released on a fresh "
+                      "lock; after all watchdogs exited and two GCs the retained heap must grow by less than 16 bytes per key.",
+        "level_note": "HeapAlloc noise is assumed far below 1.6 MB; the per-key map size read by reflection is diagnostic only.",
+        "assumptions": ["watchdog exit is detected through the goroutine count"],
+    },
 }
